@@ -218,6 +218,37 @@ func runCheck(repo, verif, prop, tier string) int {
 			violations = append(violations, line)
 		}
 	}
+	// bounded stand-ins: run-time checking of the contracts (including the run-time-only rac_ensures oracles) on the enumerated
+	// input pools; quick tier: only functions that carry rac_ensures; thorough tier: every function under contract of this property
+	var bounded []map[string]interface{}
+	for _, r := range reps {
+		c := p.Contracts.Funcs[r.Key]
+		if c == nil || r.Session == nil || r.Err != "" || c.Trusted {
+			continue
+		}
+		if !(len(c.RacEnsures) > 0 || tier == "thorough") || !hasProp(c, prop) {
+			continue
+		}
+		src, notes, err := buildReplayTest(p, r.Session, nil)
+		if err != nil {
+			continue
+		}
+		out := runReplayTest(p, r.Session, src, filepath.Join(verif, "work", "rac", prop, sanitizeFile(r.Key)))
+		cases := 0
+		fmt.Sscanf(firstLine(out.Output, "GOVC-END cases="), "GOVC-END cases= %d", &cases)
+		entry := map[string]interface{}{"function": r.Key, "cases": cases, "bound": "input pools of /verif/engine/cmd/govc/racpools.go (boundary values per type, encoder-generated and damaged messages, SML snippets), capped at 30000 cases",
+			"rac_ensures": len(c.RacEnsures), "not_executable": notes, "violation": out.Confirmed}
+		if out.Confirmed {
+			name := r.Key + "#bounded-contract-search"
+			if kf := matchKnown(known, prop, name); kf != nil {
+				knownLines = append(knownLines, fmt.Sprintf("KNOWN-FINDING: property=%s %s", prop, kf.Text))
+			} else {
+				rp := writeReplayFileX(replayDir, name, prop, nil, out.Reason, src, true, map[string]interface{}{"replay_output": out.Output})
+				violations = append(violations, fmt.Sprintf("VIOLATION property=%s replay=%s obligation=%s", prop, rp, name))
+			}
+		}
+		bounded = append(bounded, entry)
+	}
 	// structural facts (C17): package-level variables and go statements
 	structural := map[string]interface{}{"package_level_variables": p.Globals, "go_statements": p.GoStmts}
 	sort.Strings(funcs)
@@ -248,6 +279,7 @@ func runCheck(repo, verif, prop, tier string) int {
 		"vacuity_guards":           map[string]int{"covers_run": covers, "covers_refuted": coverFail},
 		"samples":                  samples,
 		"structure":                structural,
+		"bounded":                  bounded,
 		"integers":                 "Go machine integers modelled as mathematical Int with explicit wrap-around at every operation",
 		"explanation":              "every obligation generated from /repo's current SSA for the functions tagged with this property; discharged = unsat from an SMT solver",
 	}
